@@ -106,6 +106,7 @@ class _ExpressionConverter:
         fluents: Dict[name, Fluent],
         objects: Dict[name, Object],
     ):
+        self._env = expression_manager.environment
         self._types = types
         self._fluents = fluents
         self._objects = objects
@@ -133,7 +134,7 @@ class _ExpressionConverter:
         key = (variable.name, assert_not_none_type(self._types[tt]))
         if key not in self._variables:
             self._variables[key] = UPVariable(
-                variable.name, assert_not_none_type(self._types[tt])
+                variable.name, assert_not_none_type(self._types[tt]), self._env
             )
         return self._variables[key]
 
@@ -427,12 +428,16 @@ class AIPDDLConverter:
         return assert_not_none_type(self._up_type(tt))
 
     def _variable_to_param(self, variable: Variable) -> Parameter:
-        return Parameter(variable.name, self._variable_type(variable))
+        return Parameter(
+            variable.name, self._variable_type(variable), self._environment
+        )
 
     def _convert_predicate_to_fluent(self, predicate: Predicate):
         assert self._up_problem is not None
         params = OrderedDict((v.name, self._variable_type(v)) for v in predicate.terms)
-        fluent = Fluent(predicate.name, self._tm.BoolType(), **params)
+        fluent = Fluent(
+            predicate.name, self._tm.BoolType(), params, self._environment
+        )
         self._fluents[predicate.name] = fluent
         self._up_problem.add_fluent(fluent, default_initial_value=self._em.FALSE())
 
@@ -462,7 +467,7 @@ class AIPDDLConverter:
             self._action_costs = {}
             return
         params = OrderedDict((v.name, self._variable_type(v)) for v in function.terms)
-        f = Fluent(function.name, self._tm.RealType(), **params)
+        f = Fluent(function.name, self._tm.RealType(), params, self._environment)
         self._fluents[function.name] = f
         # a function without a value in :init is undefined (PDDL 2.1), as in the UPPDDLReader
         self._up_problem.add_fluent(f)
@@ -477,7 +482,11 @@ class AIPDDLConverter:
         assert self._up_problem is not None
         if obj.type_tags is None:
             raise UPUnsupportedProblemTypeError(f"Object {obj.name} has no type tag")
-        obj = Object(obj.name, assert_not_none_type(self._up_type(obj.type_tag)))
+        obj = Object(
+            obj.name,
+            assert_not_none_type(self._up_type(obj.type_tag)),
+            self._environment,
+        )
         self._objects[obj.name] = obj
         self._up_problem.add_object(obj)
 
@@ -644,7 +653,7 @@ class AIPDDLConverter:
                 new_quantifier_variables = current_quantifier_variables.copy()
                 for v in current_effect.variables:
                     new_quantifier_variables[v.name] = UPVariable(
-                        v.name, self._variable_type(v)
+                        v.name, self._variable_type(v), self._environment
                     )
                 stack.append(
                     (current_effect.effect, new_quantifier_variables, current_condition)
@@ -666,11 +675,13 @@ class AIPDDLConverter:
             (v.name, self._variable_type(v)) for v in action.parameters
         )
         action_parameters_expression = {
-            p_name: Parameter(p_name, p_type)
+            p_name: Parameter(p_name, p_type, self._environment)
             for p_name, p_type in action_parameters.items()
         }
 
-        up_action = InstantaneousAction(action.name, **action_parameters)
+        up_action = InstantaneousAction(
+            action.name, action_parameters, self._environment
+        )
 
         # the ai planning parser represents the empty precondition `()` as an
         # empty disjunction; it means "no precondition", not "never applicable"
